@@ -70,6 +70,20 @@ pub fn death(serial: u64) -> bool {
     }
 }
 
+/// Forgets values that are alive and known to be unreachable for a reason outside the
+/// properties (returns how many were alive).
+pub fn forget(serials: &[u64]) -> usize {
+    let mut l = lock();
+    let mut n = 0;
+    for s in serials {
+        if l.map.get(s) == Some(&State::Live) {
+            l.map.remove(s);
+            n += 1;
+        }
+    }
+    n
+}
+
 pub fn state(serial: u64) -> Option<State> {
     lock().map.get(&serial).copied()
 }
